@@ -342,7 +342,7 @@ func runC06(r *report.Run) {
 	r.Set("histories", hist)
 	r.Set("distance_cases", nd)
 	r.Set("bounds", map[string]interface{}{"history_depth": depth, "alphabet": len(asmAlphabet()), "constructor_variants": len(variants), "distances": fmt.Sprintf("[-%d,%d]", lim, lim), "branches": len(c06Branches)})
-	r.Set("rule", "every sequence of emitter calls up to the depth over the 25-symbol alphabet under every constructor variant (listing on/off x base unset/$000000/$008000/$7E2000/$FFFE00): each call is executed on a fresh real Emitter and on the reference model (outcome and Bytes/Len/PC/Flags/GetLabel compared after every call), then Finalize twice against the model's resolution; plus every branch distance in the stated range for each label-taking method, forward and backward, 1-3 references, with and without an additional unresolved or out-of-range reference. states = histories (each reaches one model state), transitions = calls executed")
+	r.Set("rule", "every sequence of emitter calls up to the depth over the 25-symbol alphabet under every constructor variant (listing on/off x base unset/$000000/$008000/$7E2000/$FF8000): each call is executed on a fresh real Emitter and on the reference model (outcome and Bytes/Len/PC/Flags/GetLabel compared after every call), then Finalize twice against the model's resolution; plus every branch distance in the stated range for each label-taking method, forward and backward, 1-3 references, with and without an additional unresolved or out-of-range reference. states = histories (each reaches one model state), transitions = calls executed")
 	r.Sample(asmHistory{Variant: variants[2], Ops: []string{"BNE(a)", "EmitBytes(33)", "Label(a)", "JMP_abs(b)"}, Capacity: 256})
 	r.Sample(c06Dist{variants[0], "BNE", -128, 2, "unresolved"})
 	r.Assume("Go map iteration order in Finalize is not controlled; the oracle accepts exactly the union of outcomes over all orders (any legitimately unresolved/out-of-range reference may be named, operand bytes may be patched or not on failure)")
